@@ -123,6 +123,13 @@ Proof.
     split; [intro He; specialize (H1 He); lia|]. split.
     + intro Ha. destruct (H2 Ha). split; [assumption|lia].
     + intros Hv. rewrite Hv in E. discriminate E.
+  - (* OResume *)
+    destruct (is13 (s_ver s) || (e =? 0)) eqn:E; cbn [fst]; [unfold Inv; auto|].
+    apply orb_false_iff in E. destruct E as [Ev E0].
+    unfold Inv. cbn [s_ver s_est s_closed s_epoch s_cur s_act]. split; [|split].
+    + intros _. unfold min_app_epoch. rewrite Ev. lia.
+    + intro Ha. destruct (H2 Ha) as [Hv _]. rewrite Hv in Ev. discriminate Ev.
+    + intros _ f Hc Hl. lia.
 Qed.
 
 (* every emission of a step is a label the checker accepts, with the establishment flag of that moment *)
@@ -178,6 +185,8 @@ Proof.
     destruct (s_est s) eqn:Ee; cbn [andb] in Hin; [|destruct Hin].
     destruct (negb (s_closed s)); cbn [snd] in Hin; [|destruct Hin]. destruct Hin as [<- | []].
     cbn [allowed e_kind e_enc e_epoch andb]. specialize (H1 eq_refl). lia.
+  - (* OResume *)
+    destruct (is13 (s_ver s) || (e0 =? 0)); cbn [snd] in Hin; destruct Hin.
 Qed.
 
 (* over every operation list: every emission carries a label the checker accepts *)
